@@ -80,6 +80,9 @@ fn line_alphabet() -> Vec<Vec<u8>> {
         v.push(format!("{} \u{e9}\u{20ac}", cmd).into_bytes());
         v.push([cmd.as_bytes(), b" \xf8x"].concat());
     }
+    for l in ["@cwd /a/", "@cwd /a//b", "@cwd /a/./b", "@cd //", "@src ./a", "@pkgdir d/", "@exec a//b /"] {
+        v.push(l.as_bytes().to_vec());
+    }
     v.push(b"@option preserve".to_vec());
     v.push(b"@option  preserve".to_vec());
     v.push(b"@option preserve ".to_vec());
